@@ -68,7 +68,7 @@ func checkC20() fw.Check {
 			}
 			if tier == "thorough" {
 				base := append([]c20Req(nil), reqs...)
-				for _, shape := range [][2]int{{3, 2}, {12, 9}, {30, 4}, {255, 3}} {
+				for _, shape := range [][2]int{{3, 2}, {12, 9}, {30, 4}, {255, 3}, {2, 1}, {7, 7}, {64, 40}, {20, 13}, {5, 2}, {255, 200}, {100, 1}} {
 					for _, rq := range base {
 						rq.maxTTL, rq.dist = shape[0], shape[1]
 						reqs = append(reqs, rq)
